@@ -49,7 +49,7 @@ V_BASE = [("sphdist", "deg", "deg", 0, 0, 0), ("sphdist", "deg", "deg", 0, 0, 1)
 V_MORE = [("sphdist", "deg", "deg", 1, 0, 0), ("sphdist", "deg", "deg", 0, -1, 0), ("sphdist", "deg", "deg", 1, 1, 1),
           ("gcirc", "deg", "rad", 1, 0, 0), ("gcirc", "deg", "rad", -1, 1, 1),
           ("sphdist", "rad", "deg", 0, 1, 0), ("sphdist", "deg", "rad", -1, 0, 1), ("sphdist", "rad", "rad", 1, -1, 1)]
-SHAPES = ("scalar", "n1", "n3", "long")
+SHAPES = ("scalar", "n1", "n3", "long", "one_vs_n3")     # one_vs_n3: first point python floats, second point arrays
 BLOCK = 240          # pairs per evaluation block = length of the "long" arrays
 
 
@@ -68,7 +68,7 @@ def pair_args(pr, var):
     return (conv(Fraction(a[0]) + 360 * k1), conv(Fraction(a[1])), conv(Fraction(b[0]) + 360 * k2), conv(Fraction(b[1])))
 
 
-def call(var, A):
+def call(var, A, mixed=False):
     """A: (n,4) doubles or a tuple of 4 python floats -> list of per-element (err, value)"""
     import esutil.coords as co
     fn = var[0]
@@ -76,6 +76,10 @@ def call(var, A):
     n = 1 if scalar else len(A)
     if scalar:
         args = A
+    elif mixed:       # one point (python floats) against an array of points; only element 0 is the pair under test
+        arrs = tuple(np.ascontiguousarray(A[:, k]) for k in (2, 3))
+        args = (float(A[0, 0]), float(A[0, 1])) + arrs
+        before = [a.tobytes() for a in arrs]
     else:
         args = tuple(np.ascontiguousarray(A[:, k]) for k in range(4))
         before = [a.tobytes() for a in args]
@@ -92,9 +96,9 @@ def call(var, A):
             out = [("none", float(v)) for v in res]
     except Exception as e:  # noqa
         out = [(type(e).__name__, None)] * n
-    if not scalar and [a.tobytes() for a in args] != before:
+    if not scalar and [a.tobytes() for a in args if isinstance(a, np.ndarray)] != before:
         out = [("ArgumentModified", None)] * n
-    return out
+    return out[:1] if mixed else out
 
 
 def project(pr, var, err, r):
@@ -144,7 +148,8 @@ def eval_block(arg):
         perm3.append(perm3[t])
         t += 1
     groups = ([("scalar", [m]) for m in range(n)] + [("n1", [m]) for m in range(n)] +
-              [("n3", perm3[t:t + 3]) for t in range(0, len(perm3), 3)] + [("long", perm_long)])
+              [("n3", perm3[t:t + 3]) for t in range(0, len(perm3), 3)] + [("long", perm_long)] +
+              [("one_vs_n3", [m, perm3[m % len(perm3)], perm_long[m]]) for m in range(n)])
     raw = [dict() for _ in pairs]                # per pair: (vi, err, hex) -> [first (shape, idxs, pos), set of shapes]
     near = [sep_group(pr) == "near180" for pr in pairs]
     gnear = {id(idxs): any(near[t] for t in idxs) for _, idxs in groups}
@@ -152,7 +157,7 @@ def eval_block(arg):
         C = np.array([pair_args(pr, var) for pr in pairs], dtype="f8")
         for shape, idxs in groups:
             A = tuple(float(x) for x in C[idxs[0]]) if shape == "scalar" else C[idxs]
-            for pos, (m, (err, v)) in enumerate(zip(idxs, call(var, A))):
+            for pos, (m, (err, v)) in enumerate(zip(idxs, call(var, A, mixed=(shape == "one_vs_n3")))):
                 # an exception belongs to the whole call: remember whether the call held a near-antipodal pair
                 key = (vi, err if v is not None or not gnear[id(idxs)] else err + "@near180", None if v is None else v.hex())
                 cl = raw[m].get(key)
@@ -400,7 +405,7 @@ def replay(ctx, case):
     var = tuple(case["variant"])
     C = np.array([[float.fromhex(x) for x in row] for row in case["call"]], dtype="f8")
     A = tuple(float(x) for x in C[0]) if case["shape"] == "scalar" else C
-    err, v = call(var, A)[case["index"]]
+    err, v = call(var, A, mixed=(case["shape"] == "one_vs_n3"))[case["index"]]
     pr = {"kind": case["kind"], "c": case["c"], "id": 1}
     if case["kind"] == "gc":
         pr.update(eps=case["eps"], sep=case["sep"])
